@@ -140,6 +140,11 @@ Definition format_83 (x : dy) : option (list ascii) :=
        then Some (firstn f83_cut (py_fmt pdb_w pdb_p x))
   else None.
 
+(* what a reader gets from a _format_83 field: the decimals that survive the cut, the digits truncated *)
+Definition f83_kept (x : dy) : nat := (pdb_p - Nat.min pdb_p (length (py_fmt pdb_w pdb_p x) - f83_cut))%nat.
+Definition f83_num (x : dy) : num :=
+  (dneg x, quant pdb_p x / 10 ^ Z.of_nat (pdb_p - f83_kept x), f83_kept x).
+
 Fixpoint map_opt {A B} (f : A -> option B) (l : list A) : option (list B) :=
   match l with
   | [] => Some []
